@@ -210,8 +210,23 @@ def _run_base(ctx):
              'all three inputs are read before the merge is computed' if ok else
              'the merge does not consume exactly the three input files read before it', mst)
     sinks = facts.fs_sinks(repo, cg, mm)
-    if len(sinks) < 2:
-        raise AnalysisError('main_merge: expected >= 2 output sinks (decisions file, notebook file), found %d' % len(sinks))
+    # sinks inside helpers of the same module count at the call site, with the helper's path parameter mapped to the argument
+    for c in calls_in(mm, nested=False):
+        for t in cg.resolve(c.func, mm):
+            if t[0] == 'func' and t[1].startswith(APP + ':') and t[1] not in (APP + ':main_merge', APP + ':_handle_agreed_deletion'):
+                hf = repo.functions[t[1]]
+                hparams = [a.arg for a in hf.args.args]
+                for hc, hwhat, hpaths in facts.fs_sinks(repo, cg, hf):
+                    mapped = []
+                    for hp in hpaths:
+                        nm = dotted(hp)
+                        if nm in hparams and hparams.index(nm) < len(c.args):
+                            mapped.append(c.args[hparams.index(nm)])
+                        else:
+                            mapped.append(hp)
+                    sinks.append((c, '%s (in %s)' % (hwhat, t[1].split(':')[1]), mapped))
+    if len(sinks) < 1:
+        raise AnalysisError('main_merge: no output sink found (anchor moved)')
     out_names = {n for n, vs in defs.items() for v, k, s in vs if dotted(v) == 'args.out'}
     for call, what, paths in sinks:
         st = repo.stmt_of(call)
